@@ -165,6 +165,18 @@ func decodeLogEntry(r io.Reader) (LogEntry, error) {
 	return entry, nil
 }
 
+// countingReader counts the bytes read through it.
+type countingReader struct {
+	reader io.Reader
+	count  int64
+}
+
+func (c *countingReader) Read(p []byte) (int, error) {
+	n, err := c.reader.Read(p)
+	c.count += int64(n)
+	return n, err
+}
+
 // persistentLog implements the Log interface. Not concurrent safe.
 type persistentLog struct {
 	// The in-memory log entries of the log.
@@ -207,17 +219,41 @@ func (l *persistentLog) Open() error {
 }
 
 func (l *persistentLog) Replay() error {
-	reader := bufio.NewReader(l.file)
+	reader := &countingReader{reader: bufio.NewReader(l.file)}
+
+	// The size of the file up to the end of the last complete entry.
+	validSize := int64(0)
 
 	for {
 		entry, err := decodeLogEntry(reader)
-		if errors.Is(err, io.EOF) {
+		// An entry that ends early can only be what is left of an append that was
+		// interrupted by a crash. It was never acknowledged, so it is discarded.
+		if errors.Is(err, io.EOF) || errors.Is(err, io.ErrUnexpectedEOF) {
 			break
 		}
 		if err != nil {
 			return fmt.Errorf("could not decode log entry: %w", err)
 		}
+		validSize = reader.count
 		l.entries = append(l.entries, &entry)
+	}
+
+	// Remove any incomplete entry from the end of the file so that the
+	// next entry is appended directly after the last complete one.
+	info, err := l.file.Stat()
+	if err != nil {
+		return fmt.Errorf("could not stat log file: %w", err)
+	}
+	if info.Size() > validSize {
+		if err := l.file.Truncate(validSize); err != nil {
+			return fmt.Errorf("could not truncate log file: %w", err)
+		}
+		if err := l.file.Sync(); err != nil {
+			return fmt.Errorf("could not sync log file: %w", err)
+		}
+	}
+	if _, err := l.file.Seek(validSize, io.SeekStart); err != nil {
+		return fmt.Errorf("could not seek log file: %w", err)
 	}
 
 	// The log must always contain at least one entry.
